@@ -132,13 +132,20 @@ func (rw *rewrite) lua() string {
 type leaf struct {
 	// Kind: allow | deny | defer | nil | garbage | error | rewrite.  With Mutate the handler first
 	// assigns to fields of its argument ("mutate-then-...").
-	Kind   string   `json:"kind"`
-	Mutate bool     `json:"mutate,omitempty"`
-	Code   int      `json:"code,omitempty"`
-	Text   string   `json:"text,omitempty"`
-	Echo   string   `json:"echo,omitempty"`    // "", "from", "lastto": appended to the deny text
-	NoArgs bool     `json:"no_args,omitempty"` // smtp.deny() without arguments
-	Lua    string   `json:"lua,omitempty"`     // garbage literal / error statement / nil form
+	Kind   string `json:"kind"`
+	Mutate bool   `json:"mutate,omitempty"`
+	Code   int    `json:"code,omitempty"`
+	Text   string `json:"text,omitempty"`
+	Echo   string `json:"echo,omitempty"`    // "", "from", "lastto": appended to the deny text
+	NoArgs bool   `json:"no_args,omitempty"` // smtp.deny() without arguments
+	// Form selects one of the optional-argument forms of the response constructors (added after
+	// seeded change C17-13, see denyForms / passArgs).  deny: "" (code, text) | "code" deny(code) |
+	// "code-nil" deny(code, nil) | "nil-text" deny(nil, text) | "extra" deny(code, text, <Args>).
+	// allow / defer: "args" = smtp.allow(<Args>) / smtp.defer(<Args>), arguments the constructor
+	// does not take and therefore ignores.
+	Form   string   `json:"form,omitempty"`
+	Args   string   `json:"args,omitempty"`
+	Lua    string   `json:"lua,omitempty"` // garbage literal / error statement / nil form
 	MutLua string   `json:"mut_lua,omitempty"`
 	RW     *rewrite `json:"rw,omitempty"`
 }
@@ -146,6 +153,11 @@ type leaf struct {
 // class names the leaf for coverage counters.
 func (l *leaf) class() string {
 	k := l.Kind
+	if l.NoArgs {
+		k += "()"
+	} else if l.Form != "" {
+		k += "(" + l.Form + ")"
+	}
 	if l.Mutate {
 		k = "mutate-then-" + k
 	}
@@ -244,13 +256,21 @@ func leafLua(kind string, l *leaf) string {
 	}
 	switch l.Kind {
 	case "allow":
-		b.WriteString("return smtp.allow()\n")
+		b.WriteString("return smtp.allow(" + l.Args + ")\n")
 	case "defer":
-		b.WriteString("return smtp.defer()\n")
+		b.WriteString("return smtp.defer(" + l.Args + ")\n")
 	case "deny":
 		switch {
 		case l.NoArgs:
 			b.WriteString("return smtp.deny()\n")
+		case l.Form == "code":
+			b.WriteString(fmt.Sprintf("return smtp.deny(%d)\n", l.Code))
+		case l.Form == "code-nil":
+			b.WriteString(fmt.Sprintf("return smtp.deny(%d, nil)\n", l.Code))
+		case l.Form == "nil-text":
+			b.WriteString(fmt.Sprintf("return smtp.deny(nil, %s)\n", luaQ(l.Text)))
+		case l.Form == "extra":
+			b.WriteString(fmt.Sprintf("return smtp.deny(%d, %s, %s)\n", l.Code, luaQ(l.Text), l.Args))
 		case l.Echo == "from":
 			b.WriteString(fmt.Sprintf("return smtp.deny(%d, %s .. session.from.address)\n", l.Code, luaQ(l.Text)))
 		case l.Echo == "lastto":
@@ -371,7 +391,8 @@ type answer struct {
 	Kind    string // "" (no answer) | defer | allow | deny
 	Code    int
 	Text    string
-	AnyText bool   // deny() without arguments: the text is the implementation's default
+	AnyText bool   // deny() / deny(code): the text is the implementation's default
+	AnyCode bool   // deny() / deny(nil, text): the code is the implementation's default
 	Class   string // leaf class that produced it (coverage)
 	Src     string // lua | go
 }
@@ -382,6 +403,7 @@ type decision struct {
 	Code    int
 	Text    string
 	AnyText bool
+	AnyCode bool
 	Src     string
 	// Alt is set when the statement leaves two outcomes open: an explicit defer by the first
 	// listener followed by a listener that answers.  Either Kind or Alt is then acceptable.
@@ -403,7 +425,15 @@ func leafAnswer(l *leaf, in sessVal) answer {
 		a.Code, a.Text = l.Code, l.Text
 		switch {
 		case l.NoArgs:
+			a.AnyText, a.AnyCode = true, true
+			a.Code = 0
+		case l.Form == "code", l.Form == "code-nil":
+			// the hook names the code and leaves the text to the server
 			a.AnyText = true
+			a.Text = ""
+		case l.Form == "nil-text":
+			// the hook names the text and leaves the code to the server
+			a.AnyCode = true
 			a.Code = 0
 		case l.Echo == "from":
 			a.Text += in.From
@@ -435,7 +465,7 @@ func decide(answers []answer) decision {
 		case "allow":
 			return decision{Kind: "allow", Src: a.Src}
 		case "deny":
-			return decision{Kind: "deny", Code: a.Code, Text: a.Text, AnyText: a.AnyText, Src: a.Src}
+			return decision{Kind: "deny", Code: a.Code, Text: a.Text, AnyText: a.AnyText, AnyCode: a.AnyCode, Src: a.Src}
 		}
 		return decision{Kind: "none", Src: a.Src}
 	}
@@ -573,6 +603,13 @@ var errorForms = []string{"error(\"boom\")", "error({ code = 42 })", "error()", 
 	"undefined_function_c17()", "error(\"boom\", 0)", "local n = 1 + nil", "assert(false, \"assert boom\")",
 	"inbucket.before.nonexistent_hook = function() end"}
 
+// denyForms: the forms of smtp.deny([code [, text]]) besides deny(code, text) and deny().
+var denyForms = []string{"code", "code", "code", "code-nil", "nil-text", "extra"}
+
+// passArgs are arguments given to a constructor that does not take them (smtp.allow / smtp.defer
+// take none, smtp.deny takes two): the answer is the constructor's, whatever is passed.
+var passArgs = []string{"550", "450, \"later\"", "\"no\"", "nil", "nil, nil", "true", "{}", "session", "250, \"ok\", 1"}
+
 var nilForms = []string{"return", "return nil", "do return end"}
 
 var denyTexts = []string{"no", "Mail denied by script", "go away", "rejected: policy #7", "100% refused",
@@ -639,6 +676,23 @@ func genSessLeaf(r *fw.Rand, kind string) leaf {
 			if r.Chance(1, 3) {
 				l = leaf{Kind: "deny", NoArgs: true}
 			}
+		case 3:
+			// Optional-argument forms (added after seeded change C17-13: the generated scripts
+			// only ever called smtp.deny with both arguments or with none, so "the hook names the
+			// code and leaves the text to the server" - the usual way to write a temporary
+			// refusal, smtp.deny(450) - was never run).  pkg/extension/luahost/bind_smtpresponse.go
+			// takes each argument on its own (OptInt(1), OptString(2)): an absent or nil argument
+			// gets the server's default, a present one is the hook's answer and must be honoured
+			// literally; further arguments are ignored as for any Lua function.
+			l.Form = r.Pick(denyForms)
+			switch l.Form {
+			case "extra":
+				l.Args = r.Pick(passArgs)
+			case "code", "code-nil":
+				if r.Chance(1, 8) {
+					l.Code = 550 // the default code given explicitly
+				}
+			}
 		}
 	case 2:
 		l = leaf{Kind: "defer"}
@@ -657,6 +711,10 @@ func genSessLeaf(r *fw.Rand, kind string) leaf {
 		if l.Kind == "garbage" {
 			l.Lua = r.Pick(garbageSess)
 		}
+	}
+	if (l.Kind == "allow" || l.Kind == "defer") && r.Chance(1, 5) {
+		// smtp.allow / smtp.defer called with arguments they do not take (C17-13 class)
+		l.Form, l.Args = "args", r.Pick(passArgs)
 	}
 	if l.Mutate {
 		l.MutLua = genMutation(r, kind)
